@@ -61,6 +61,7 @@ DATE_TOL = 0.5e-6
 # the direct call (0.0131 (w h)^8 r <= 4e-5 m for w h <= 0.07), (b) grid-offset terms of the integrator's
 # global error (O(h^5) for RK4; of the size of the configured tolerance for the adaptive methods,
 # O(h^2) for Euler).  Measured worst values are in the evidence; see num_state_tol().
+MJD_HALF_ULP_S = 0.5 * 7.275957614183426e-12 * 86400  # half an ulp of a float MJD near 5e4 days, in seconds
 NUM_HISTORY_TOL = 1e-6  # m, same arithmetic => expected bitwise (DESIGN C08)
 
 
@@ -128,12 +129,22 @@ def lib():
 
 def setup(ctx, job):
     L = lib()
-    st = {"L": L, "hill": {o: L["HillFrame"](orientation=o) for o in ("QSW", "TNW")}, "registered": 0}
+    st = {"L": L, "hill": {o: L["HillFrame"](orientation=o) for o in ("QSW", "TNW")}, "registered": 0, "probes": []}
+
+    def post(args, kw, res):
+        # (self, orb, step) -> (real_step, orb): did the adaptive method shorten the step?
+        ctx.count("keplernum-internal-steps")
+        if abs(res[0].total_seconds()) < abs(args[2].total_seconds()):
+            ctx.count("keplernum-adaptive-step-reduced")
+            st["reduced"] = st.get("reduced", 0) + 1
+
+    st["probes"].append(probe.attach(L["KeplerNum"], "_make_step", post=post))
     return st
 
 
 def finish(ctx, job, st):
-    pass
+    for p in st["probes"]:
+        p.remove()
 
 
 def base_datetime(rng, real_eop=False):
@@ -362,7 +373,7 @@ def make_spec(rng, L, kind, st, base, frames_job=False):
             hmax = 0.07 / w
             method = kind.split("-", 1)[1]
             h = rng.choice([x for x in (10, 15, 20, 30, 40, 45, 60) if x <= hmax] or [10])
-            spec.update(method=method, h=h, tol=rng.choice([1e-3, 1e-3, 1e-4, 1e-5]), w=w)
+            spec.update(method=method, h=h, tol=rng.choice([1e-3, 1e-3, 1e-4, 1e-5, 1e-6, 1e-7]), w=w, a=a, e=e)
         return spec
     if kind == "cw":
         orient = rng.choice(["QSW", "TNW"])
@@ -433,8 +444,15 @@ def spec_epoch(spec):
 
 # ------------------------------------------------------------------------------------------------
 # workload: iteration requests
-def gen_step_us(rng):
+def gen_step_us(rng, numerical=False):
     c = rng.random()
+    if numerical:
+        # output steps >= 1 s (see num_state_tol: a neighbouring date is then >= 7 km away)
+        if c < 0.5:
+            return rng.choice([1, 2, 5, 10, 30, 45, 60, 90, 120, 300]) * US
+        if c < 0.8:
+            return rng.randrange(1000, 300000) * 1000
+        return rng.randrange(US, 200 * US)
     if c < 0.5:
         return rng.choice([1, 2, 5, 10, 30, 45, 60, 90, 120, 180, 300, 600]) * US
     if c < 0.8:
@@ -448,10 +466,32 @@ def gen_request(rng, spec, family):
     epoch = spec_epoch(spec)
     req = {}
     is_ephem = kind.startswith("ephem")
+    numerical = family == "numerical"
+    far = 20 * 60 if numerical else 3 * 3600  # largest |start - epoch| (s)
+    if is_ephem and rng.random() < 0.08:
+        # documented refusal: a request reaching outside the table (strict=True is the default)
+        first, last = spec["offs"][0], spec["offs"][-1]
+        delta = rng.choice([1, 2, 1000, US, rng.randrange(1, 3600 * US)])
+        side = rng.choice(["start-before-first", "stop-after-last", "date-in-list-outside"])
+        if side == "start-before-first":
+            return {"type": "sss", "outside": side, "start": first - delta, "start_eff": first - delta, "stop": rng.randrange(first, last + 1),
+                    "step": max(1000, (last - first) // 5), "stop_kind": "date", "step_given": "pos", "step_omitted": rng.random() < 0.3,
+                    "backward": False, "divides": False, "nsteps": 5, "start_class": "outside", "expected": []}
+        if side == "stop-after-last":
+            s0 = rng.randrange(first, last + 1)
+            return {"type": "sss", "outside": side, "start": s0, "start_eff": s0, "stop": last + delta,
+                    "step": max(1000, (last - first) // 5), "stop_kind": rng.choice(["date", "timedelta"]), "step_given": "pos",
+                    "step_omitted": rng.random() < 0.3, "backward": False, "divides": False, "nsteps": 5, "start_class": "inside", "expected": []}
+        pts = sorted(rng.randrange(first, last + 1) for _ in range(3))
+        pts.insert(rng.randrange(4), rng.choice([first - delta, last + delta]))
+        return {"type": "dates", "outside": side, "container": rng.choice(["list", "tuple", "generator"]), "order": "random",
+                "expected": pts, "backward": False}
     if rng.random() < 0.62:
         req["type"] = "sss"
-        step = gen_step_us(rng)
+        step = gen_step_us(rng, numerical)
         nsteps = rng.choice([0, 0, 1, 2, 3, 5, 6, 7, 8, 9, 12, 25, 60])
+        if numerical and nsteps * step > 2400 * US:
+            step = max(US, 2400 * US // nsteps)
         divides = rng.random() < 0.4
         if is_ephem:
             first, last = spec["offs"][0], spec["offs"][-1]
@@ -476,9 +516,9 @@ def gen_request(rng, spec, family):
             sc = rng.choice(["omitted", "at", "before", "after"])
             off = 0
             if sc == "before":
-                off = -rng.choice([rng.randrange(1, 3 * 3600 * US), rng.randrange(1, 7200) * US])
+                off = -rng.choice([rng.randrange(1, far * US), rng.randrange(1, far) * US])
             elif sc == "after":
-                off = rng.choice([rng.randrange(1, 3 * 3600 * US), rng.randrange(1, 7200) * US])
+                off = rng.choice([rng.randrange(1, far * US), rng.randrange(1, far) * US])
             start = epoch + off
             want = nsteps * step + (0 if divides else rng.randrange(1, step))
             backward = rng.random() < 0.45
@@ -503,9 +543,9 @@ def gen_request(rng, spec, family):
             first, last = spec["offs"][0], spec["offs"][-1]
             lo, hi = first, last
         else:
-            lo, hi = epoch - 2 * 3600 * US, epoch + 2 * 3600 * US
+            lo, hi = epoch - min(far, 7200) * US, epoch + min(far, 7200) * US
         if req["container"] == "daterange":
-            step = gen_step_us(rng)
+            step = gen_step_us(rng, numerical)
             nsteps = rng.choice([1, 2, 3, 7, 8, 12, 30])
             if nsteps * step >= hi - lo:
                 step = max(1000, (hi - lo) // (nsteps + 1))
@@ -543,6 +583,13 @@ def gen_request(rng, spec, family):
 def call_kwargs(req, clock, L):
     """Turn the integer request into library arguments (new Date/timedelta objects at every call)."""
     Date = L["Date"]
+    if req["type"] == "own":  # Ephem.iter() without step: the ephemeris' own nodes between optional bounds
+        kw = {}
+        if req.get("start") is not None:
+            kw["start"] = clock.date(req["start"])
+        if req.get("stop") is not None:
+            kw["stop"] = clock.date(req["stop"])
+        return kw
     if req["type"] == "sss":
         kw = {}
         if req["start"] is not None:
@@ -574,9 +621,15 @@ def num_state_tol(spec, req, date_us):
     when the clause is not decidable for the method.
 
     Both sides are order-8 Lagrange interpolations of Runge-Kutta nodes of the same method and step h.
+      * always: DatedInterp works on float MJD abscissae (ulp 0.63 us): every node and the query are displaced
+        by <= 0.31 us, i.e. <= v * 0.31 us in position, amplified by the Lebesgue function of the window
+        (computed: 6.93 in an end interval of 8 equispaced nodes, 1.49 in the middle one).  Two interpolations
+        of the same nodes through different windows therefore differ by <= (6.93 + 1.49 + 2) v 0.31 us
+        = 2.5 cm at LEO speed (measured: up to 6 mm); margin 2.9 on this worst-case bound: quant = 30 v 0.315 us.
+        (DESIGN's flat 5 mm was below this floor and fired on the unchanged tree: corrected, see report.)
       * start == epoch: both march the *same* nodes from the epoch (same arithmetic); they differ only by
-        the interpolation window (edge window in the direct call): 0.0131 (w h)^8 r (w = pericentre
-        angular rate, w h <= 0.07 by construction => <= 5e-5 m); floor 5 mm (DESIGN), margin 100 on the bound.
+        the interpolation window (edge window in the direct call): quant + 0.0131 (w h)^8 r (w = pericentre
+        angular rate, w h <= 0.07 by construction => <= 5e-5 m), margin 100 on the truncation term.
       * start != epoch: the iteration marches epoch -> start, interpolates, then marches on a grid shifted
         against the one of the direct call.  Two discrete solutions of one ODE on different grids differ by
         at most the sum of the local truncation errors of all N steps marched on both paths times the
@@ -590,14 +643,15 @@ def num_state_tol(spec, req, date_us):
     (numerical requests use output steps >= 1 s).
     """
     m, h, w = spec["method"], spec["h"], spec["w"]
-    r = max(abs(x) for x in spec["coord"][:1]) if spec["form"] not in ("cartesian", "spherical") else 7e6
-    r = max(r, 6.6e6)
+    r = spec["a"] * (1 + spec["e"])
+    vp = w * spec["a"] * (1 - spec["e"])
+    quant = 30 * vp * MJD_HALF_ULP_S
     interp = 0.0131 * (w * h) ** 8 * r
     epoch = spec["epoch_us"]
     start = req["start_eff"] if req["type"] == "sss" or req.get("container") == "daterange" else None
     same_nodes = start is not None and start == epoch and not req.get("backward")
     if same_nodes:
-        return 5e-3 + 100 * interp
+        return quant + 100 * interp
     if m == "euler":
         return None
     if start is None:
@@ -609,7 +663,7 @@ def num_state_tol(spec, req, date_us):
         lte = (w * h) ** 5 / 120 * r
     else:
         lte = max(spec["tol"], (w * h) ** 6 / 720 * r)
-    return 5e-3 + 100 * interp + 20 * N * lte * growth
+    return 2 * quant * growth + 100 * interp + 20 * N * lte * growth
 
 
 def record_stream(it, limit=5000):
@@ -648,30 +702,47 @@ def check_dates(ctx, kind, req, got_dates, clock, witness, sorted_by_date=False)
     dates is observable, the expected list is compared in ascending order."""
     fam = grid_family(kind)
     backward = bool(req.get("backward"))
-    exp = sorted(req["expected"]) if sorted_by_date else list(req["expected"])
+    exp = list(req["expected"])
+    got_dates = list(got_dates)
+    if sorted_by_date:
+        # bring both into the order of iteration (ascending table read back to front for a backward request)
+        exp = sorted(exp, reverse=backward)
+        if backward:
+            got_dates.reverse()
     ctx.count("dates-model-evaluated")
     got_us = [clock.us_float(d) for d in got_dates]
     w = dict(witness, expected_n=len(exp), got_n=len(got_us),
              expected_first_last=[clock.iso(exp[0]), clock.iso(exp[-1])] if exp else [],
              got_first_last=[str(got_dates[0]), str(got_dates[-1])] if got_dates else [])
     dirname = "backward" if backward else "forward"
+    offgrid_key = f"C08/{fam}-{req['type']}-{dirname}-dates-off-grid"
+    if req.get("step_omitted") and fam == "keplernum":
+        offgrid_key = "C08/keplernum-default-step-offgrid"
     if len(got_us) != len(exp):
         stop = req.get("stop")
         if backward:
             beyond = [g for g in got_us if stop is not None and g < stop - 0.5]
         else:
             beyond = [g for g in got_us if stop is not None and g > stop + 0.5]
+        prefix_bad = [k for k, (g, e) in enumerate(zip(got_us, exp)) if abs(g - e) > 0.5]
         if not exp:
             key = f"C08/{fam}-empty-dates-container-yields-states"
             msg = f"empty dates container: {len(got_us)} states yielded"
         elif not got_us and backward and fam == "ephem" and req["type"] == "sss":
             key, msg = "C08/ephem-iter-backward-range-empty", "Ephem.iter with start > stop yields nothing, silently"
+        elif not got_us and backward and fam == "keplernum":
+            key, msg = "C08/keplernum-backward-range", "KeplerNum iteration with start > stop yields nothing"
         elif not got_us:
             key, msg = f"C08/{fam}-{req['type']}-{dirname}-range-empty", "nothing yielded"
-        elif beyond and req["type"] == "sss":
+        elif prefix_bad:
+            k = prefix_bad[0]
+            key = offgrid_key
+            w = dict(w, index=k, expected=clock.iso(exp[k]), got=str(got_dates[k]))
+            msg = f"yielded date #{k} = {got_dates[k]} is not the requested {clock.iso(exp[k])} ({len(got_us)} dates yielded, {len(exp)} requested)"
+        elif beyond and req["type"] == "sss" and len(got_us) > len(exp):
             key = f"C08/{fam}-yields-beyond-stop"
             msg = f"{len(beyond)} yielded date(s) beyond stop {clock.iso(stop)} (last yielded {got_dates[-1]})"
-        elif len(got_us) == len(exp) - 1 and all(abs(g - e) <= 0.5 for g, e in zip(sorted(got_us, reverse=backward and not sorted_by_date), exp)):
+        elif len(got_us) == len(exp) - 1:
             key = f"C08/{fam}-last-date-missing" + ("-stop-on-grid" if req.get("divides") else "")
             msg = f"the last date {clock.iso(exp[-1])} of the inclusive range was not yielded"
         else:
@@ -686,49 +757,57 @@ def check_dates(ctx, kind, req, got_dates, clock, witness, sorted_by_date=False)
             worst, at = d, k
     if exp:
         w2 = dict(w, index=at, expected=clock.iso(exp[at]), got=str(got_dates[at]))
-        key = f"C08/{fam}-{req['type']}-{dirname}-dates-off-grid"
-        if req.get("step_omitted") and fam == "keplernum":
-            key = "C08/keplernum-default-step-offgrid"
+        key = offgrid_key
         return ctx.resid("dates:" + ("list" if req["type"] == "dates" else "grid"), worst, DATE_TOL, key=key, witness=w2,
                          msg=f"yielded date #{at} = {got_dates[at]} differs from the requested {clock.iso(exp[at])} by {worst:.3g} s")
     ctx.ok("empty-container-empty-stream")
     return True
 
 
-def direct_reference(ctx, kind, spec, L, st, clock, samples, witness, fresh_each=False):
+def direct_reference(ctx, kind, spec, req, L, st, clock, samples, witness):
     """Compare yielded states with propagate() of a fresh equal object. samples = list of states."""
     bk = base_kind(kind)
     numerical = bk == "keplernum"
-    fresh = None
+    fresh = build(spec, L, st, clock)
     for s in samples:
-        if fresh is None or fresh_each:
-            fresh = build(spec, L, st, clock)
         try:
             ref = fresh.propagate(s.date)
         except Exception as exc:
             ctx.violation(f"C08/{bk}-direct-propagate-raises-{type(exc).__name__}", dict(witness, date=str(s.date), exc=repr(exc)),
                           f"iteration yielded a state at {s.date} but a direct propagate() to that date raised {exc!r}")
             continue
-        ctx.count(f"state-compared:{bk if numerical else kind}")
         w = dict(witness, date=str(s.date))
         a, b = probe.arr(s), probe.arr(ref)
         lab_ok = labels(s) == labels(ref) and datekey(s.date) == datekey(ref.date)
         ctx.expect(lab_ok, f"C08/{bk}-iter-labels-differ-from-propagate", dict(w, got=labels(s), ref=labels(ref)),
                    f"yielded form/frame/date {labels(s)} {s.date} vs direct {labels(ref)} {ref.date}")
         if numerical:
+            tol = num_state_tol(spec, req, clock.us_float(s.date))
+            if tol is None:
+                ctx.count("state-not-judged:euler-shifted-grid")
+                continue
+            ctx.count("state-compared:keplernum")
             dr = float(np.linalg.norm(a[:3] - b[:3]))
-            scale = float(np.linalg.norm(b[:3]))
-            ctx.resid(f"state:keplernum-{spec['method']}:pos", dr, num_state_tol(spec) if spec["method"] != "euler" else 1e-3 * scale,
-                      key="C08/keplernum-iter-state-differs-from-propagate", witness=dict(w, got=a, ref=b),
-                      msg=f"|dr| = {dr:.6g} m between the yielded state and a direct propagation to {s.date}")
-        elif kind == "ephem-linear":
-            # y0 + (y1-y0)*t : both sides are the same function of the same date -> bitwise
-            ctx.expect(a.tobytes() == b.tobytes(), f"C08/{bk}-iter-state-differs-from-propagate", dict(w, got=a, ref=b),
-                       "yielded state not bitwise equal to the interpolation at that date")
+            cls = "same-nodes" if (req.get("start_eff") == spec["epoch_us"] and not req.get("backward")) else "shifted-grid"
+            ctx.resid(f"state:keplernum-{spec['method']}:{cls}", dr, tol,
+                      key="C08/keplernum-iter-state-differs-from-propagate", witness=dict(w, got=a, ref=b, grid=cls),
+                      msg=f"|dr| = {dr:.6g} m between the yielded state and a direct propagation to {s.date} ({cls})")
+        elif kind == "ephem-linear" and a.tobytes() != b.tobytes():
+            # Ephem.iter(step=None) yields copies of its own nodes; interpolate() at a node evaluates
+            # y0 + (y1 - y0) * 1.0, which rounds twice: |d| <= 2^-53 (|y1 - y0| + |y1|) per component.
+            # Bound used: 4 * 2^-52 * |vector| (margin ~3 on the worst case); recorded, judged.
+            ctx.count("state-compared:ephem-linear")
+            ctx.count("ephem-linear:node-copy-vs-interpolation-rounding")
+            d = max(float(np.linalg.norm(a[:3] - b[:3])) / max(float(np.linalg.norm(b[:3])), 1e-300),
+                    float(np.linalg.norm(a[3:] - b[3:])) / max(float(np.linalg.norm(b[3:])), 1e-300))
+            ctx.resid("state:ephem-linear:rel", d, 4 * 2.0 ** -52, key="C08/ephem-linear-iter-state-differs-from-propagate",
+                      witness=dict(w, got=a, ref=b), msg=f"relative difference {d:.3g} between the yielded state and interpolate({s.date})")
         else:
+            # same function of the same (initial numbers, date): bit for bit
+            ctx.count(f"state-compared:{kind}")
             ctx.expect(a.tobytes() == b.tobytes(), f"C08/{bk}-iter-state-differs-from-propagate",
                        dict(w, got=a, ref=b, max_abs_diff=float(np.max(np.abs(a - b)))),
-                       f"yielded state at {s.date} not bitwise equal to a direct propagation on a fresh equal orbit")
+                       f"yielded state at {s.date} not bitwise equal to a direct propagation on a fresh equal object")
 
 
 # ------------------------------------------------------------------------------------------------
@@ -803,7 +882,7 @@ def stream_case(ctx, job, idx, rng, st):
         ctx.count("divides:yes" if req["divides"] else "divides:no")
         sc = req["start_class"]
         ctx.count({"omitted": "start:omitted", "at": "start:at-epoch", "before": "start:before-epoch", "after": "start:after-epoch",
-                   "inside": "start:inside-table", "at-last": "start:at-last-node"}[sc])
+                   "inside": "start:inside-table", "at-last": "start:at-last-node", "outside": "start:outside-table"}[sc])
         ctx.count("stop:" + req["stop_kind"])
         if req["nsteps"] < 7:
             ctx.count("span:shorter-than-order")
@@ -850,6 +929,20 @@ def stream_case(ctx, job, idx, rng, st):
         gen = obj.iter(**kw) if api == "iter" else obj.ephemeris(**kw)
         return record_stream(gen), False
 
+    if req.get("outside"):
+        ctx.count("ephem-outside-request:" + req["outside"])
+        try:
+            stream, _ = guard.call(obj, f"{api}({req['type']})", produce)
+        except ValueError:
+            ctx.ok("ephem-out-of-range-refused")
+            return
+        except Exception as exc:
+            ctx.violation(f"C08/ephem-out-of-range-raises-{type(exc).__name__}", dict(witness, exc=repr(exc)), f"{exc!r} instead of ValueError")
+            return
+        ctx.violation("C08/ephem-out-of-range-not-refused", dict(witness, yielded=len(stream)),
+                      f"request reaching outside the table ({req['outside']}) produced {len(stream)} states instead of a ValueError")
+        return
+
     try:
         stream, sorted_by_date = guard.call(obj, f"{api}({req['type']})", produce)
     except ValueError as exc:
@@ -867,26 +960,10 @@ def stream_case(ctx, job, idx, rng, st):
     events = [s for s in stream if getattr(s, "event", None) is not None]
     if events:
         ctx.count("streams-with-events")
-    exp_req = dict(req)
-    if sorted_by_date:
-        # Ephem() sorts its points by date: only the multiset of dates is observable through .ephem()
-        exp_req["expected"] = sorted(req["expected"])
-        exp_req["backward"] = False
-        if req.get("backward"):
-            exp_req["_was_backward"] = True
-    if sorted_by_date and req.get("backward") and req["type"] == "sss":
-        exp_req["stop"] = None
-    ok = check_dates(ctx, kind, dict(exp_req, backward=req.get("backward") if not sorted_by_date else False) if False else _with_dir(exp_req, req, sorted_by_date),
-                     [s.date for s in samples], clock, witness)
+    ok = check_dates(ctx, kind, req, [s.date for s in samples], clock, witness, sorted_by_date=sorted_by_date)
     if numerical and ok:
         ctx.count("numerical-stream-completed")
-    # chronological order of the complete stream (events included) in the direction of iteration
-    if not sorted_by_date and req.get("order") != "random" and len(stream) > 1:
-        sgn = -1 if req.get("backward") else 1
-        us = [clock.us_float(s.date) for s in stream]
-        mono = all(sgn * (b - a) >= -0.5 for a, b in zip(us, us[1:]))
-        ctx.expect(mono, f"C08/{bk}-stream-not-chronological", witness, "stream (samples + events) not ordered in the direction of iteration")
-
+    # (the order of *events* inside the stream is C10's subject; not judged here)
     # states vs direct propagation on a fresh equal object
     if samples:
         if numerical:
@@ -894,10 +971,10 @@ def stream_case(ctx, job, idx, rng, st):
                 [samples[rng.randrange(len(samples))] for _ in range(1)]
         else:
             pick = samples if len(samples) <= 24 else [samples[0], samples[-1]] + [samples[rng.randrange(len(samples))] for _ in range(22)]
-        direct_reference(ctx, kind, spec, L, st, clock, pick, witness)
+        direct_reference(ctx, kind, spec, req, L, st, clock, pick, witness)
 
     # with listeners: the samples must be the very same as without listeners (bitwise), on a fresh object
-    if use_listeners and samples and api != "ephem":
+    if ok and use_listeners and samples and api != "ephem":
         other = build(spec, L, st, clock)
         kw = call_kwargs(req, clock, L)
         try:
@@ -907,12 +984,6 @@ def stream_case(ctx, job, idx, rng, st):
         if plain is not None and len(plain) == len(samples):
             same = all(vbytes(a) == vbytes(b) and datekey(a.date) == datekey(b.date) for a, b in zip(plain, samples))
             ctx.expect(same, f"C08/{bk}-samples-depend-on-listeners", witness, "samples of an iteration change when listeners are attached")
-
-
-def _with_dir(exp_req, req, sorted_by_date):
-    r = dict(exp_req)
-    r["backward"] = False if sorted_by_date else bool(req.get("backward"))
-    return r
 
 
 # ------------------------------------------------------------------------------------------------
@@ -940,8 +1011,8 @@ def gen_queries(rng, spec, n):
                 u = rng.choice(spec["offs"]) if rng.random() < 0.3 else rng.randrange(first, last + 1)
                 qs.append(("p", u))
             else:
-                step = max(1000, (last - first) // rng.choice([3, 7, 11]))
-                s0 = rng.randrange(first, last - 2 * step) if last - first > 3 * step else first
+                step = max(1000, (last - first) // rng.choice([4, 7, 11]))
+                s0 = rng.randrange(first, last - 3 * step + 1)
                 qs.append(("i", {"type": "sss", "start": s0, "start_eff": s0, "stop": s0 + 2 * step + step // 3, "step": step,
                                  "stop_kind": "date", "step_given": "pos", "step_omitted": False, "backward": False,
                                  "expected": [s0, s0 + step, s0 + 2 * step]}))
@@ -952,7 +1023,7 @@ def gen_queries(rng, spec, n):
             u = epoch
         if c < 0.55:
             qs.append(("p", u))
-        elif c < 0.7 and kind not in ("none",) and not numerical:
+        elif c < 0.7 and kind not in ("none",):
             qs.append(("pt", u))
         else:
             step = rng.choice([30, 60, 97]) * US
@@ -988,6 +1059,8 @@ def qdescr(q, clock):
     t, a = q
     if t in ("p", "pt"):
         return [t, clock.iso(a)]
+    if a["type"] == "own":
+        return ["own-nodes", None if a.get("start") is None else clock.iso(a["start"]), None if a.get("stop") is None else clock.iso(a["stop"])]
     return [t, clock.iso(a["start_eff"]), clock.iso(a["stop"]), a["step"] / 1e6]
 
 
@@ -1048,11 +1121,6 @@ def compare_answers(ctx, kind, spec, ref, got, key, witness, what):
     return ok
 
 
-def other_spec(rng, L, st, base, kind, frames_job):
-    s = make_spec(rng, L, kind, st, base, frames_job=frames_job)
-    return s
-
-
 def history_case(ctx, job, idx, rng, st):
     L = st["L"]
     family = job["family"]
@@ -1066,6 +1134,12 @@ def history_case(ctx, job, idx, rng, st):
     spec = make_spec(rng, L, kind, st, base, frames_job=frames_job)
     nq = rng.choice([3, 4, 5]) if numerical else rng.choice([4, 6, 8, 10])
     qs = gen_queries(rng, spec, nq)
+    if is_ephem:
+        # own-node iterations (no step): whole table and a sub-range
+        offs = spec["offs"]
+        i0 = rng.randrange(0, len(offs))
+        i1 = rng.randrange(i0, len(offs))
+        qs = [("i", {"type": "own"}), ("i", {"type": "own", "start": offs[i0], "stop": offs[i1]})] + qs
     scenarios = ["shuffle", "interleave", "listener-reuse", "inplace-edit", "shared-propagator-sequential",
                  "shared-propagator-interleaved", "copy-made", "generator-interleave"]
     if frames_job:
@@ -1134,7 +1208,7 @@ def history_case(ctx, job, idx, rng, st):
     elif scen == "interleave":
         obj = fresh()
         okind = rng.choice(["kepler", "j2", "sgp4", "none"]) if not is_ephem else "kepler"
-        ospec = other_spec(rng, L, st, base, okind, frames_job)
+        ospec = make_spec(rng, L, okind, st, base, frames_job=frames_job)
         other = build(ospec, L, st, clock)
         lst = [L["NodeListener"](), L["ApsideListener"]()]
         order = list(range(len(qs)))
@@ -1208,7 +1282,7 @@ def history_case(ctx, job, idx, rng, st):
                 if iq:
                     safe_answer(obj, iq[0], "other range, same listeners", listeners=lst)
                 if not is_ephem:
-                    o2 = build(other_spec(rng, L, st, base, rng.choice(["kepler", "j2"]), False), L, st, clock)
+                    o2 = build(make_spec(rng, L, rng.choice(["kepler", "j2"]), st, base), L, st, clock)
                     try:
                         list(o2.iter(stop=timedelta(seconds=4000), step=timedelta(seconds=400), listeners=lst))
                     except Exception as exc:
@@ -1246,6 +1320,9 @@ def history_case(ctx, job, idx, rng, st):
                     ref_obj.date = newd
                 else:
                     vals = probe.arr(target.copy(form=spec["form"])) if kind != "cw" else probe.arr(target)
+                    if not np.all(np.isfinite(vals)):
+                        ctx.count("inplace-edit-setup:non-finite-target")
+                        return
                     obj[:] = vals
                     ref_obj = build(spec, L, st, clock)
                     ref_obj[:] = vals
@@ -1281,8 +1358,9 @@ def history_case(ctx, job, idx, rng, st):
         if kind == "cw":
             spec2 = dict(spec2, orientation=spec["orientation"], sma=spec["sma"])
             b = build(spec2, L, st, clock)
-        if kind == "sgp4":
-            spec2["epoch_us"] = spec2["epoch_us"]
+        if numerical:  # the shared propagator object has A's configuration: the reference for B must have it too
+            spec2 = dict(spec2, h=spec["h"], method=spec["method"], tol=spec["tol"])
+            b = build(spec2, L, st, clock)
         b.propagator = a.propagator
         qs2 = gen_queries(rng, spec2, len(qs))
         ref2 = []
@@ -1330,13 +1408,13 @@ def history_case(ctx, job, idx, rng, st):
                         except StopIteration:
                             done_b = True
             except Exception as exc:
-                ctx.violation(f"C08/{bk}-shared-propagator-interleaved-iter", dict(witness, spec_b=spec2, exc=repr(exc)),
+                ctx.violation("C08/shared-propagator-interleaved-iter", dict(witness, spec_b=spec2, exc=repr(exc)),
                               f"two orbits sharing one propagator, generators consumed alternately: {exc!r}")
                 return
             ctx.count("shared-propagator-interleaved:evaluated")
-            compare_answers(ctx, kind, spec, ref[ja], outa, f"C08/{bk}-shared-propagator-interleaved-iter",
+            compare_answers(ctx, kind, spec, ref[ja], outa, "C08/shared-propagator-interleaved-iter",
                             dict(witness, spec_b=spec2, query=qdescr(qs[ja], clock)), "generators of two orbits sharing one propagator consumed alternately (A)")
-            compare_answers(ctx, kind, spec2, ref2[jb], outb, f"C08/{bk}-shared-propagator-interleaved-iter",
+            compare_answers(ctx, kind, spec2, ref2[jb], outb, "C08/shared-propagator-interleaved-iter",
                             dict(witness, spec_b=spec2, query=qdescr(qs2[jb], clock)), "generators of two orbits sharing one propagator consumed alternately (B)")
     elif scen == "copy-made":
         # an orbit made by copy() is an equal initial orbit: it must answer like the original
@@ -1352,8 +1430,12 @@ def history_case(ctx, job, idx, rng, st):
             if numerical:
                 p0, p1 = obj.propagator, cp.propagator
                 same_cfg = (p0.step == p1.step and p0.method == p1.method and p0.tol == p1.tol and str(p0.frame) == str(p1.frame))
-                ctx.expect(same_cfg, "C08/keplernum-copy-drops-tol", dict(witness, tol=p0.tol, copy_tol=p1.tol, method=p0.method),
-                           f"copy() of the orbit carries a propagator with tol={p1.tol!r} instead of {p0.tol!r}")
+                adaptive = p0.method in ("rkf54", "dopri54")
+                if adaptive:  # tol only enters the adaptive methods
+                    ctx.expect(same_cfg, "C08/keplernum-copy-drops-tol", dict(witness, tol=p0.tol, copy_tol=p1.tol, method=p0.method),
+                               f"copy() of the orbit carries a propagator with tol={p1.tol!r} instead of {p0.tol!r}")
+                elif not same_cfg:
+                    ctx.count("keplernum-copy-drops-tol:fixed-step-method-no-effect")
                 if not same_cfg:
                     key = "C08/keplernum-copy-drops-tol"
             compare_answers(ctx, kind, spec, ref[j], got, key, dict(witness, query=qdescr(q, clock)), "orbit made by copy()")
@@ -1365,6 +1447,8 @@ def history_case(ctx, job, idx, rng, st):
             ctx.count("generator-interleave:no-iteration-query")
             return
         obj = fresh()
+        if is_ephem and len(iq) >= 4 and (idx // 7) % 2:
+            iq = iq[2:]  # the stepped (interpolating) iterations instead of the two own-node ones
         j1 = iq[0]
         j2 = iq[1] if len(iq) > 1 else iq[0]
         try:
@@ -1393,7 +1477,10 @@ def history_case(ctx, job, idx, rng, st):
         except Exception as exc:
             ctx.violation(f"C08/{bk}-history-{scen}-raises-{type(exc).__name__}", dict(witness, exc=repr(exc)), repr(exc))
             return
-        compare_answers(ctx, kind, spec, ref[j1], o1, f"C08/{bk}-interleaved-generators-same-object", dict(witness, query=qdescr(qs[j1], clock)),
+        key = f"C08/{bk}-interleaved-generators-same-object"
+        if qs[j1][1]["type"] == "own" and qs[j2][1]["type"] == "own":
+            key = "C08/ephem-own-node-iteration-shared-cursor"  # Ephem.__iter__ returns self with the cursor self._i
+        compare_answers(ctx, kind, spec, ref[j1], o1, key, dict(witness, query=qdescr(qs[j1], clock)),
                         "two generators of one object consumed alternately (first)")
-        compare_answers(ctx, kind, spec, ref[j2], o2, f"C08/{bk}-interleaved-generators-same-object", dict(witness, query=qdescr(qs[j2], clock)),
+        compare_answers(ctx, kind, spec, ref[j2], o2, key, dict(witness, query=qdescr(qs[j2], clock)),
                         "two generators of one object consumed alternately (second)")
